@@ -6,6 +6,18 @@ BASELINE = ("cd /repo && cargo nextest run --workspace --no-fail-fast --tool-con
             "--profile pb --test-threads 8 --offline")
 TECH = "contract-based deductive verification: Verus (Z3) on functions of /repo extracted mechanically on every run"
 CLAIMED = {
+ "C13": dict(
+   text=("For InMemorySessionStore, Verus discharges on the real text of every trait method (create, update, update_ttl, load, delete, "
+         "change_id, delete_expired) and of the helpers get_mut_if_fresh/_delete/is_stale a postcondition over the WHOLE map: load never "
+         "returns an expired or absent record and returns exactly the stored state; create never overwrites a live record; update, "
+         "update_ttl, delete, change_id answer unknown-id on absent or expired records and otherwise change exactly that record "
+         "(change_id moves it atomically, duplicate-id if the new id is live); delete_expired removes only expired records (loop "
+         "invariants, unbounded). A syntactic lock-scope check (one critical section per method) lifts the sequential contracts to "
+         "linearizability. Thorough adds native tests of the real store."),
+   note=("Claimed for the in-memory store only. NOT decided: the SQLite store (SQL semantics are outside any Rust verifier), "
+         "concurrency beyond the lock-scope argument. Assumed: clock constant within one operation; time arithmetic as integers; vstd's "
+         "HashMap specs + key model for SessionId + an assumed spec of HashMap::get_mut; tokio Mutex erased (rule N6)."),
+   design="§3/C13"),
  "C11": dict(
    text=("Verus discharges, for all inputs and configurations, contracts on the real text of every Session operation: lazy loading "
          "(force_load*), the server-side mutators (insert_raw/remove_raw/clear/delete/invalidate/cycle_id) and the client-side ones, "
@@ -41,7 +53,6 @@ NA = {
  "C08": "rule checks walk ComponentDb/ComputationDb built from rustdoc JSON; needs whole-repository invariants (DESIGN §3/C08)",
  "C09": "whole-process totality/termination/panic-freedom over 26 kLoC; Verus rejects the loops' text, Kani proves no termination (DESIGN §3/C09)",
  "C10": "not yet built in this tree: planned tier-2 partial claim (idempotence and --check clauses) — see DESIGN §3/C10",
- "C13": "not yet built in this tree: planned claim for the in-memory store — see DESIGN §3/C13",
  "C14": "not yet built in this tree: planned modular claim — see DESIGN §3/C14",
  "C15": "decoding lives in serde/percent-encoding/serde_html_form; pavex part is macro-generated serde glue generic over every Deserialize (DESIGN §3/C15)",
  "C16": "concurrency + liveness over threads/tokio/sockets; neither verifier supports it on this code (DESIGN §3/C16)",
